@@ -63,6 +63,11 @@ func (r *runner) otherSorts(w *World, k Kons, sc *vk.Scenario) {
 				sc.Outcome(key)
 				if nontrivial {
 					sc.Nontrivial++
+					mode := "lenient(tied times)"
+					if s == search.BlobRefAsc || !orderOpen {
+						mode = "strict"
+					}
+					r.okCount["around-other "+sortNames[s]+" "+mode+": windows checked OK (pivot in list, 0<limit<len)"]++
 				}
 			}
 		}
@@ -94,9 +99,11 @@ func (w *World) checkOther(k Kons, s search.SortType, limit int, pv Pivot) *Fail
 
 func (w *World) checkOther2(k Kons, s search.SortType, limit int, pv Pivot, full []blob.Ref) (f *Failure, key string, nontrivial bool) {
 	sn := sortNames[s]
-	if s == search.BlobRefAsc {
+	if s == search.BlobRefAsc || !w.hasTiedTimes(full) {
+		// the order of the list is fully determined (blobref order, or creation
+		// times pairwise distinct): the strict window oracle applies
 		out, f := w.CheckAround("around-other", k, s, limit, pv, full)
-		return f, sn + "|" + out.key(limit), out.PivotIdx >= 0 && limit > 0 && limit < out.FullLen
+		return f, sn + "|strict|" + out.key(limit), out.PivotIdx >= 0 && limit > 0 && limit < out.FullLen
 	}
 	fail := func(class, format string, args ...any) *Failure {
 		return &Failure{"C09|around-other|" + sn + "|" + class,
